@@ -147,3 +147,70 @@ func VerifH_C09_deadQueue() {
 		}
 	}
 }
+
+// outputs as the router sees them: plugins whose Stop stops their batcher
+type verifMainOut struct{ rb *RetriableBatcher }
+
+func (o *verifMainOut) Start(AnyConfig, *OutputPluginParams) {}
+func (o *verifMainOut) Stop()                                { o.rb.Stop() }
+func (o *verifMainOut) Out(e *Event)                         { o.rb.Add(e) }
+
+type verifDQOut struct{ b *Batcher }
+
+func (o *verifDQOut) Start(AnyConfig, *OutputPluginParams) {}
+func (o *verifDQOut) Stop()                                { o.b.Stop() }
+func (o *verifDQOut) Out(e *Event)                         { o.b.Add(e) }
+
+// C09.H3b: the pipeline is stopped (the real Router.Stop) while the main output is still retrying a batch
+// and a dead queue is configured: the retries run out during the stop, the events are handed to the dead
+// queue, and the dead queue still writes and commits them - nothing is reset and then dropped.
+func VerifH_C09_routerStopWhileRetrying() {
+	K := 1 + vf.Choose("events", vf.Param("K", 2))
+	ctl := &verifRetryCtl{mainAcked: map[uint64]bool{}, dqAcked: map[uint64]bool{}, routed: map[uint64]bool{}, commits: map[uint64]int{}}
+	router := NewRouter()
+	dq := &verifDQOut{}
+	dq.b = NewBatcher(BatcherOptions{Controller: ctl, Workers: 1, BatchSizeCount: 1, FlushTimeout: verifFlush,
+		OutFn: func(_ *WorkerData, b *Batch) {
+			b.ForEach(func(e *Event) { ctl.dqAcked[e.SeqID] = true })
+		}})
+	dq.b.workersWg.Add(1)
+	go dq.b.work()
+	go dq.b.heartbeat()
+	router.deadQueue = dq
+	attempts := 0
+	outFn := func(_ *WorkerData, b *Batch) error {
+		attempts++
+		return errVerifSink
+	}
+	onError := func(err error, events []*Event) {
+		for _, e := range events {
+			ctl.routed[e.SeqID] = true
+			router.Fail(e)
+		}
+	}
+	rb := NewRetriableBatcher(&BatcherOptions{Controller: ctl, Workers: 1, BatchSizeCount: K, FlushTimeout: verifFlush},
+		outFn, BackoffOpts{MinRetention: 100 * time.Millisecond, Multiplier: 1, AttemptNum: 1, IsDeadQueueAvailable: true}, onError)
+	rb.batcher.workersWg.Add(1)
+	go rb.batcher.work()
+	go rb.batcher.heartbeat()
+	main := &verifMainOut{rb}
+	router.output = main
+	for i := 1; i <= K; i++ {
+		router.Out(&Event{SeqID: uint64(i), Size: 1})
+	}
+	// the stop arrives before, between or after the attempts
+	time.Sleep(time.Duration(vf.Choose("stop-after", 4)) * 80 * time.Millisecond)
+	router.Stop()
+	vf.Quiesce(500)
+	for i := 1; i <= K; i++ {
+		id := uint64(i)
+		if vf.Param("twin", 0) == 1 {
+			vf.Assert(!ctl.dqAcked[id], "event-of-a-failed-batch-is-written-by-the-dead-queue")
+			continue
+		}
+		vf.Assert(ctl.dqAcked[id], "event-of-a-failed-batch-is-written-by-the-dead-queue")
+		vf.Assert(ctl.commits[id] == 1, "committed-exactly-once")
+	}
+	vf.Assert(attempts >= 2, "send-was-retried")
+	vf.Reach("stopped-while-retrying")
+}
